@@ -87,7 +87,7 @@ package p9
 // drop them, or hand them to a table entry or a parent link, before it returns).
 // own(f): 1 = File obtained from the backend by this invocation and not yet
 // closed or stored, 2 = owned by a fidRef, 3 = closed.
-//@ refcount fidRef.refs [C05,C15]
+//@ refcount fidRef.refs [C05,C15,C16]
 //@ reflink fidRef.parent [C05,C15]
 //@ reftable connState.fids [C05,C15]
 //@ ownfield fidRef.file [C05,C15]
